@@ -259,12 +259,8 @@ func (m *Machine) conv(dst, src types.Type, x value) value {
 				for _, e := range xs {
 					t := e.(*Term)
 					if !t.IsConst() {
-						// symbolic rune: handled when it is ASCII on this path
-						if m.branch(tt.Bin(OpULt, t, tt.Const(t.Sort, 0x80)), "ascii rune") {
-							out = append(out, tt.Extract(t, 7, 0))
-							continue
-						}
-						panic(m.unsupported("string([]rune) with symbolic non-ASCII runes"))
+						out = append(out, m.encodeRuneSym(t)...)
+						continue
 					}
 					for _, b := range utf8.AppendRune(nil, rune(t.SVal())) {
 						out = append(out, tt.Const(BV(8), uint64(b)))
@@ -301,9 +297,18 @@ func (m *Machine) conv(dst, src types.Type, x value) value {
 					}
 					return out
 				}
+				if ss, sym := x.(symString); sym {
+					out := []value{}
+					for i := 0; i < len(ss); {
+						r, w := m.decodeRuneSym(ss, i)
+						out = append(out, r)
+						i += w
+					}
+					return out
+				}
 				s, ok := x.(string)
 				if !ok {
-					panic(m.unsupported("[]rune(string) with symbolic bytes"))
+					panic(m.unsupported("[]rune(%T)", x))
 				}
 				var out []value
 				for _, r := range s {
